@@ -377,6 +377,8 @@ pub struct Brute {
     pub best_consecutive_hyphens: bool,
     /// largest |partial total| met on a feasible prefix (guards the awful_bad domain restriction)
     pub max_abs_total: i64,
+    /// per number of lines: bit set of the fitness classes of the last line over all feasible sequences
+    pub last_fit_by_count: std::collections::BTreeMap<usize, u8>,
 }
 
 impl Oracle {
@@ -534,6 +536,7 @@ impl Oracle {
                 if b + 1 == m {
                     out.feasible += 1;
                     let lines = seq.len();
+                    *out.last_fit_by_count.entry(lines).or_insert(0) |= 1 << fit;
                     let e = out.per_count.entry(lines).or_insert(i64::MAX);
                     if t < *e {
                         *e = t;
